@@ -570,9 +570,16 @@ func (c *c05Ctx) judgeRowND(p *c05Probe, row int, rnd shwap.RowNamespaceData, er
 }
 
 func (c *c05Ctx) opRowND(acc eds.AccessorStreamer) {
+	// rows of the original square: every probe namespace; parity rows (which commit to the parity namespace
+	// only): the first data namespace of the square, tail padding and parity.
+	firstNS := c.nsForOOB()
 	for _, pi := range c.seq(len(c.probes)) {
 		p := &c.probes[pi]
+		onParityRows := p.NS.Equals(firstNS) || p.Name == "TAIL" || p.Name == "PARITY"
 		for _, row := range c.seq(c.N) {
+			if row >= c.W && !onParityRows {
+				continue
+			}
 			var rnd shwap.RowNamespaceData
 			err, pan := c05Guard(func() (e error) { rnd, e = acc.RowNamespaceData(c.ctx, p.NS, row); return })
 			c.judgeRowND(p, row, rnd, err, pan)
@@ -760,6 +767,12 @@ func (c *c05Ctx) opReader(acc eds.AccessorStreamer) {
 	tail := libshare.TailPaddingShare()
 	for _, ci := range c.seq(len(c.chunks)) {
 		chunk := c.chunks[ci]
+		if chunk < 0 { // negative: only for squares up to width 2
+			if c.W > 2 {
+				continue
+			}
+			chunk = -chunk
+		}
 		arg := fmt.Sprintf("chunk=%d", chunk)
 		var raw []byte
 		err, pan := c05Guard(func() error {
